@@ -25,7 +25,7 @@ def run_qs(P, W, mode, cut, shell, cell, scale_pow, s):
             warnings.simplefilter("ignore")
             if mode == "cut":
                 cuts = (np.asarray(cut, float) / (s * s)) / (sc * sc)
-                m = QuickShift(dist_cutoff_sq=cuts.copy(), scale=sc, **kw)
+                m = core.mk(QuickShift, dist_cutoff_sq=cuts.copy(), scale=sc, **kw)
             else:
                 m = QuickShift(gabriel_shell=shell, **kw)
             m.fit(X, samples_weight=np.asarray(W, float))
